@@ -23,7 +23,7 @@ Attempt ==
   /\ LET o == At(CurScript, k)
          more == k < Budget(cfg)
          retryEmpty == IF "RetryOnEmptyNeedsRoi" \in CDev THEN cfg.roe /\ cfg.roi ELSE cfg.roe
-         again == \/ (o = "nothing" /\ retryEmpty /\ more)
+         again == \/ (o \in {"nothing", "late"} /\ retryEmpty /\ more)
                   \/ (o \in {"short", "garbage"} /\ ~(o = "garbage" /\ "RaisesOnGarbage" \in CDev) /\ cfg.roi /\ more)
                   \/ (o = "foreign" /\ "ForeignAccepted" \notin CDev /\ cfg.roi /\ more)
      IN /\ sent' = sent + 1
